@@ -4,6 +4,7 @@ package storage
 // domain mapping. Runs on the real NewJSONFileStorage / SaveRouter / SaveMapping / Stop. Injected with go test -overlay.
 
 import (
+	"context"
 	"encoding/json"
 	"fmt"
 	"math/rand"
@@ -49,6 +50,15 @@ func TestVerifBoundedC18(t *testing.T) {
 	r := rand.New(rand.NewSource(seed + 18))
 	dir := t.TempDir()
 	cases := 0
+	// a pool of generated, valid router identities
+	var pool []*m.Address
+	for len(pool) < 200 {
+		id, _, err := m.GenerateRoutableAddress(context.Background(), []netip.Prefix{m.BaseNetPrefix}, nil, 0)
+		if err != nil {
+			t.Fatal(err)
+		}
+		pool = append(pool, id)
+	}
 	fail := ""
 	for n := 0; n < states && fail == ""; n++ {
 		file := filepath.Join(dir, fmt.Sprintf("state-%d.json", n))
@@ -62,13 +72,13 @@ func TestVerifBoundedC18(t *testing.T) {
 			nRouters, nMappings = 0, 0
 		}
 		routers := map[netip.Addr]*StoredRouter{}
+		r.Shuffle(len(pool), func(i, j int) { pool[i], pool[j] = pool[j], pool[i] })
 		for i := 0; i < nRouters; i++ {
-			ip := verifAddr(r)
-			key := make([]byte, 32)
-			r.Read(key)
+			// only records with a valid identity survive a reload (the loader verifies them)
+			id := pool[i]
 			used := time.Unix(int64(r.Intn(1<<31)), int64(r.Intn(1e9))).UTC()
 			sr := &StoredRouter{
-				Address:   &m.PublicAddress{IP: ip, Hash: "BLAKE3", Type: "Ed25519", PublicKey: key, Easing: r.Uint64()},
+				Address:   &m.PublicAddress{IP: id.IP, Hash: id.Hash, Type: id.Type, PublicKey: id.PublicKey, Easing: id.Easing},
 				Universe:  verifString(r),
 				Offline:   r.Intn(2) == 0,
 				CreatedAt: time.Unix(int64(r.Intn(1<<31)), int64(r.Intn(1e9))).UTC(),
@@ -82,7 +92,7 @@ func TestVerifBoundedC18(t *testing.T) {
 			if err := s.SaveRouter(sr); err != nil {
 				fail = "save router: " + err.Error()
 			}
-			routers[ip] = sr
+			routers[id.IP] = sr
 		}
 		mappings := map[string]netip.Addr{}
 		for i := 0; i < nMappings; i++ {
